@@ -55,6 +55,14 @@ TOL_QACC = {C.SOL_NEWTON: 1e-7, C.SOL_CG: 1e-7, C.SOL_PGS: 1e-4}      # |qacc - 
 TOL_FORCE = {C.SOL_NEWTON: 1e-7, C.SOL_CG: 1e-7, C.SOL_PGS: 1e-4}     # |f - f_ref| / max(1, |f_ref|)
 TOL_ISLAND = {C.SOL_NEWTON: 1e-7, C.SOL_CG: 1e-7, C.SOL_PGS: 1e-4}    # per-island vs monolithic, qacc and efc_force
 APEX_KEY = "PGS elliptic: contact at the cone apex is only updated along the normal (fixed point that is not the optimum)"
+APEX_MINIMAL = {   # stand-alone reproduction of the root cause (a sphere lifting off a plane at 1 m/s while sliding at 2 m/s)
+    "xml": '<mujoco><option cone="elliptic" solver="PGS" tolerance="1e-15" iterations="5000"><flag warmstart="disable"/></option>'
+           '<worldbody><geom type="plane" size="1 1 .1"/><body pos="0 0 0.055"><freejoint/><geom type="sphere" size="0.05" '
+           'margin="0.02" condim="3" friction="1 0.005 0.0001"/></body></worldbody></mujoco>',
+    "qvel": [2, 0, 1, 0, 0, 0],
+    "observed": "PGS: solver_niter=1, efc_force=[0,0,0], qacc=[0,0,-9.81,0,0,0]",
+    "expected": "Newton/CG/reference optimum: efc_force=[16.645,0,16.645], qacc=[-31.79,0,21.98,0,1668.97,0]",
+}
 TOL_DESCENT = 1e-9                                                     # cost increase / max(|c_start|, 1)
 TOL_IMPROVEMENT = 1e-9                                                 # negative improvement / max(scaled |c_start|, 1)
 
@@ -129,7 +137,8 @@ def check_case(lib, host, part, st, cone, ident, thorough):
                 ex.update(diag)
                 ex["force"] = extra["force"].tolist()
                 ex["force_reference"] = f_ref.tolist()
-                part.violation(APEX_KEY, "PGS stops (improvement < tolerance) at a non-optimal point: %s: %s; contact rows %d..%d are "
+                ex["minimal_standalone_repro"] = APEX_MINIMAL
+                C.report(part, APEX_KEY, "PGS stops (improvement < tolerance) at a non-optimal point: %s: %s; contact rows %d..%d are "
                                "exactly 0 with normal residual %.3g >= 0 but |mu*res_T| = %.3g > res_N, reference normal force %.6g "
                                "(mix=%s eq=%s skel=%s state=%s)" % (
                                    what, detail, diag["cone_first_row"], diag["cone_first_row"] + diag["dim"] - 1,
@@ -140,7 +149,7 @@ def check_case(lib, host, part, st, cone, ident, thorough):
         if extra is not None and "force" in extra:
             extra = dict(extra)
             extra["force"] = extra["force"].tolist()
-        part.violation("%s | solver=%s cone=%s" % (what, SOLVER_NAME[solver], cname),
+        C.report(part, "%s | solver=%s cone=%s" % (what, SOLVER_NAME[solver], cname),
                        "%s: %s (solver=%s cone=%s mix=%s eq=%s skel=%s state=%s)" % (
                            what, detail, SOLVER_NAME[solver], cname, "+".join(host.atoms), host.eqkind, host.skel, st), rp(extra))
 
@@ -166,8 +175,11 @@ def check_case(lib, host, part, st, cone, ident, thorough):
     a_ref, c_ref, g_ref, it_ref = P.solve_from(start)
     if thorough or ident[1] % 16 == 0:
         a2, c2, g2, _ = P.solve_from(P.a0)
+        part.add("reference_cross_checked_from_qacc_smooth")
         if g2 < 1e-9 and g_ref < 1e-9 and abs(c2 - c_ref) > 1e-9 * max(1.0, abs(c_ref)):
-            raise RuntimeError("reference optimiser is start-dependent: %s %s %s %s" % (host.skel, host.atoms, st, cone))
+            part.count(1)
+            part.add("reference_start_dependent")                # harness limitation: skip the case
+            return
     if not g_ref < 1e-9:
         part.count(1)
         part.add("reference_not_converged")
@@ -259,8 +271,8 @@ def check_case(lib, host, part, st, cone, ident, thorough):
                     if gap > TOL_COST[solver]:
                         bad("reference optimiser finds a lower cost", solver, "%s: c - c_ref = %.3g rel (c_ref %.6g)" % (tag, gap, c_ref), extra)
                     if gap < -1e-9:
-                        raise RuntimeError("reference optimum is worse than the engine's: %s %s %s %s gap %g" % (
-                            host.skel, host.atoms, st, cone, gap))
+                        part.add("reference_beaten_by_engine")   # harness limitation (reference not at its optimum): skip
+                        continue
                     # (iii) agreement with the reference optimum
                     ea = float(np.abs(qacc - a_ref).max()) / ascale
                     ef = float(np.abs(force - f_ref).max()) / fscale
@@ -314,16 +326,16 @@ def _chunk(chunk):
         try:
             host = C.Host(lib, skel, atoms, eqkind)
         except mj.MjError as e:
-            part.violation("host model does not compile", "skel=%s mix=%s eq=%s: %s" % (skel, atoms, eqkind, e),
+            C.report(part, "host model does not compile", "skel=%s mix=%s eq=%s: %s" % (skel, atoms, eqkind, e),
                            {"skel": skel, "atoms": atoms, "eq": eqkind})
             continue
-        states = host.state_space(nq=2, nvel=3) if thorough else [s for s in host.state_space(nq=2, nvel=2) if s[0] == 1]
+        states = host.state_space(nq=2, nvel=3) if thorough else [s for s in host.state_space(nq=2, nvel=3) if s[0] == 1 and s[1] != 0]
         for cone in (C.CONE_PYRAMIDAL, C.CONE_ELLIPTIC):
             for st in states:
                 try:
                     check_case(lib, host, part, st, cone, (skel, mi), thorough)
                 except mj.MjError as e:
-                    part.violation("engine error | cone=%s" % CONE_NAME[cone], "mju_error: %s" % e,
+                    C.report(part, "engine error | cone=%s" % CONE_NAME[cone], "mju_error: %s" % e,
                                    {"skel": skel, "atoms": atoms, "eq": eqkind, "state": st, "cone": cone, "xml": host.xml})
                     host.d.free()
                     host.d = lib.make_data(host.m)
@@ -339,16 +351,32 @@ def run(ctx):
     core.pmap(ctx, _chunk, items, nchunks=min(len(items), core.NCPU * 6))
     ctx.extra["models"] = len(items)
     ctx.extra["mixes"] = len(mixes)
+    ctx.extra["boundary_excluded"] = sum(int(ctx.extra.get(k, 0)) for k in (
+        "reference_not_converged", "reference_start_dependent", "reference_beaten_by_engine"))
     ctx.rule = ("skeleton %s x all 511 non-empty subsets of {E(connect|weld|joint),F,L,T,C1,C3,C4,C6} x cone{pyramidal,elliptic} x "
                 "state lattice (contact k at dist %s rotated by cs, limit k at %s rotated by ls, %s) x solver{Newton,CG,PGS} x "
                 "island{on,off} x jacobian{dense,sparse} x warmstart{cold,qacc_smooth,previous} (+ primal runs capped at 1 and 3 "
                 "iterations x warmstart{previous,far-off}%s); evaluation = one mj_forward with its oracles; non-trivial = distinct "
                 "(model, cone, state, solver, jacobian, island, warmstart) whose optimum has a non-zero constraint force"
                 % (skels, C.CONTACT_DIST, C.LIMIT_STATE_NAME,
-                   "2 configurations x 3 velocity patterns" if ctx.thorough else "bent configuration x 2 velocity patterns",
+                   "2 configurations x 3 velocity patterns" if ctx.thorough else "bent configuration x 2 non-zero velocity patterns",
                    "" if ctx.thorough else ", sparse jacobian only"))
     ctx.assumptions = ["J, aref, R, frictionloss, contact friction, M, qacc_smooth harvested from mjData (other properties)",
                        "reference law s(e) = -min_{f in Omega}(1/2 f'Rf + f'e) per conceptual constraint, reference Newton optimiser in numpy",
                        "converged = solver's own report (Newton and CG at tolerance 0: last gradient < 1e-10 or self-terminated before the cap; PGS stopped by tolerance 1e-15 "
                        "before 5000 iterations); others counted and skipped",
                        "PGS compared with looser fixed tolerances (stationarity 1e-1 scaled, qacc/force 1e-4 relative)"]
+
+
+def replay(ctx, path):
+    """./check C10 --replay <file>: re-run the recorded (model, state, cone) through the whole solver-option lattice."""
+    import json
+    r = json.load(open(path))["replay"]
+    lib = mj.load()
+    host = C.Host(lib, r["skel"], tuple(r["atoms"]), r["eq"])
+    part = core.Part()
+    check_case(lib, host, part, tuple(r["state"]), int(r["cone"]), (r["skel"], 0), True)
+    for v in part["violations"]:
+        print("VIOLATION-REPLAY %s\n  %s" % (v["key"], v["what"]))
+    print("replay: %d evaluations, %d violations" % (part["evaluations"], len(part["violations"])))
+    return 1 if part["violations"] else 0
